@@ -2447,6 +2447,18 @@ func (r *Resolver) findDS(ctx context.Context, signer, qname string, parentDS []
 			}
 
 			parentDS = dnsutil.ExtractRRSet(dsResp.Answer, signer, dns.TypeDS)
+			if !cd && r.dnssec && len(parentDS) > 0 && !dsResp.AuthenticatedData {
+				// The DS lookup validated its own chain and came back
+				// without AD: the RRset was reached through an insecure
+				// delegation somewhere above signer. A DS nobody vouches
+				// for is not a trust anchor for the zone below it — using
+				// it would let the child's signatures verify and the reply
+				// carry AD although no chain reaches a configured anchor.
+				// Report "no DS" instead; the callers then settle the zone
+				// as insecure (or bogus, if the inherited chain says it
+				// must be signed).
+				parentDS = nil
+			}
 		}
 	}
 
